@@ -78,8 +78,12 @@ func runDiscipline(s *Session, prop string, verified map[string]bool) *Disciplin
 						mapRanges = append(mapRanges, s.L.Fset.Position(i.Pos()).String())
 					}
 				case *ssa.Store:
-					if g, ok := i.Addr.(*ssa.Global); ok && fn.Name() != "init" && !strings.HasPrefix(fn.Name(), "init#") {
+					if g := globalRoot(i.Addr); g != nil && fn.Name() != "init" && !strings.HasPrefix(fn.Name(), "init#") {
 						globals = append(globals, g.Name())
+					}
+				case *ssa.MapUpdate:
+					if g := globalRoot(i.Map); g != nil && fn.Name() != "init" && !strings.HasPrefix(fn.Name(), "init#") {
+						globals = append(globals, g.Name()+" (map update)")
 					}
 				case ssa.CallInstruction:
 					f := i.Common().StaticCallee()
@@ -95,6 +99,17 @@ func runDiscipline(s *Session, prop string, verified map[string]bool) *Disciplin
 					}
 					if nondetPkgs[pp] {
 						bad = append(bad, "calls "+f.String()+" at "+s.L.Fset.Position(in.Pos()).String())
+					}
+					// process-wide memory behind a method call: sync.Map / atomic values held in package-level variables
+					if (pp == "sync" || pp == "sync/atomic") && fn.Name() != "init" {
+						switch f.Name() {
+						case "Store", "LoadOrStore", "LoadAndDelete", "Delete", "Swap", "CompareAndSwap", "CompareAndDelete", "Add", "Range", "Load", "Clear":
+							for _, a := range i.Common().Args {
+								if g := globalRoot(a); g != nil {
+									globals = append(globals, g.Name()+" (via "+f.String()+")")
+								}
+							}
+						}
 					}
 				}
 			}
@@ -134,4 +149,25 @@ func onlyTelemetry(v ssa.Value) bool {
 		}
 	}
 	return true
+}
+
+// globalRoot follows field / index / load chains back to a package-level variable.
+func globalRoot(v ssa.Value) *ssa.Global {
+	for d := 0; d < 8; d++ {
+		switch a := v.(type) {
+		case *ssa.Global:
+			return a
+		case *ssa.FieldAddr:
+			v = a.X
+		case *ssa.IndexAddr:
+			v = a.X
+		case *ssa.UnOp:
+			v = a.X
+		case *ssa.Field:
+			v = a.X
+		default:
+			return nil
+		}
+	}
+	return nil
 }
